@@ -16,6 +16,7 @@ import Fir.Generated.CropF64
 import Fir.Model.View
 import Fir.Model.CropF64
 import Fir.Proofs.ViewExactLemmas
+import Mathlib.Tactic.SplitIfs
 
 namespace Fir.C04
 open Fir.Gen
@@ -31,33 +32,11 @@ theorem check_crop_box_iff (W H l t w h : Nat)
     (check_crop_box W H l t w h = 1 ↔ (l ≥ W ∨ t ≥ H)) ∧
     (check_crop_box W H l t w h = 2 ↔ (l < W ∧ t < H ∧ (l + w > W ∨ t + h > H))) ∧
     check_crop_box_ok W H l t w h := by
+  -- shape-independent: whatever order of tests / temporaries the source uses, every path is closed by `omega`
   unfold check_crop_box check_crop_box_ok
   simp only [Bool.or_eq_true, decide_eq_true_eq, ge_iff_le, gt_iff_lt]
-  by_cases h1 : W ≤ l ∨ H ≤ t
-  · rw [if_pos h1, if_pos h1]
-    refine ⟨?_, ?_, ?_, trivial⟩
-    · constructor <;> intro hx <;> omega
-    · constructor <;> intro hx <;> omega
-    · constructor <;> intro hx <;> omega
-  · rw [if_neg h1, if_neg h1]
-    have hlW : l < W := by omega
-    have htH : t < H := by omega
-    have e1 : (W + 4294967296 - l) % 4294967296 = W - l := by omega
-    have e2 : (H + 4294967296 - t) % 4294967296 = H - t := by omega
-    rw [e1, e2]
-    by_cases h2 : W - l < w ∨ H - t < h
-    · rw [if_pos h2, if_pos h2]
-      refine ⟨?_, ?_, ?_, ?_⟩
-      · constructor <;> intro hx <;> omega
-      · constructor <;> intro hx <;> omega
-      · constructor <;> intro hx <;> omega
-      · simp only [and_true]; omega
-    · rw [if_neg h2, if_neg h2]
-      refine ⟨?_, ?_, ?_, ?_⟩
-      · constructor <;> intro hx <;> omega
-      · constructor <;> intro hx <;> omega
-      · constructor <;> intro hx <;> omega
-      · simp only [and_true]; omega
+  refine ⟨?_, ?_, ?_, ?_⟩ <;>
+    (split_ifs <;> (first | omega | trivial | (constructor <;> intro _ <;> omega) | (simp_all; omega) | simp_all))
 
 /-- the translated validation is the `cropValid` predicate of the view model, so every `crop` node of
     a well-formed `View` is one that the real constructors accept, and vice versa -/
